@@ -386,3 +386,8 @@ pub async fn run(
     }
     Ok(())
 }
+
+#[cfg(feature = "isomer_erbium_verif")]
+mod isomer_erbium_verif {
+    include!(concat!(env!("ISOMER_ERBIUM_VERIF_DIR"), "/http.rs"));
+}
